@@ -367,7 +367,7 @@ pub fn run_c18(p: &Params) -> Option<Finding> {
     let cfgc = cfg.clone();
     let mut sim = Sim::new(pu(p, "seed", 1), (1, 5));
     sim.hold_timers = true;
-    let pols = [Policy::None, Policy::Bump, Policy::Same, Policy::Lose, Policy::SameEq];
+    let pols = [Policy::None, Policy::Bump, Policy::Same, Policy::Lose, Policy::SameEq, Policy::Tie];
     for a in 1..=n {
         let pol = if pu(p, "pol_all", 9) < 4 { pols[pu(p, "pol_all", 0) as usize] } else { *r.pick(&pols) };
         sim.add_node(&node_setup(a, r.below(2) as u16, pol, codec_of(p), &cfgc, r.next()));
